@@ -18,4 +18,56 @@ def fxCacheLoad : List String :=
    "load", "if(err){", "if{", "}", "if(forUpdate){", "close_handler(fileInfo.Handler)", "}", "return", "}",
    "set_forupdate(forUpdate)", "cache_set"]
 
+
+/-! ## WHO may remove or replace an entry of the view cache (reviewed 2026-09-25 on the pinned tree) -/
+
+/-- the methods of ViewMap / SyncMap that change the map -/
+def viewMapMutators : List String :=
+  ["Clean", "CleanWithErrors", "Clear", "Delete", "Dispose", "DisposeTemporaryTable", "Set", "Store", "delete", "store"]
+
+/-- every call of one of them on Transaction.CachedViews, with the reason it is allowed:
+    * `Set` in Insert / Update / Replace / Delete / CreateTable / AddColumns / DropColumns / RenameColumn /
+      SetTableAttribute: the transaction's OWN change of a table it holds under the lock (the model's `dml` / `create`);
+    * `Clean` / `CleanWithErrors` in Transaction.ReleaseResources(WithErrors): the END of the transaction (COMMIT,
+      ROLLBACK, the end of the run) — `fresh_after_commit`, `fresh_after_rollback`;
+    * in cacheViewFromFile: `Dispose` = the documented reload (first data-changing access to a table loaded by a plain
+      SELECT), the first `Set` = the restore of that view when the reload fails, the second `Set` = the load itself.
+    (DISPOSE of a temporary table works on the TemporaryTables maps of the scope, not on the cache.) -/
+def cacheMutationSites : List String :=
+  ["query.AddColumns:Set", "query.CreateTable:Set", "query.Delete:Set", "query.DropColumns:Set", "query.Insert:Set",
+   "query.RenameColumn:Set", "query.Replace:Set", "query.SetTableAttribute:Set",
+   "query.Transaction.ReleaseResources:Clean", "query.Transaction.ReleaseResourcesWithErrors:CleanWithErrors",
+   "query.Update:Set", "query.cacheViewFromFile:Dispose", "query.cacheViewFromFile:Set", "query.cacheViewFromFile:Set"]
+
+/-- one level up: the statement dispatcher for the data statements, COMMIT / ROLLBACK and the end of the run for the
+    release, the table loader for cacheViewFromFile -/
+def cacheMutatorCallers : List String :=
+  ["cli.commandAction->ReleaseResourcesWithErrors", "query.Processor.ExecuteStatement->AddColumns",
+   "query.Processor.ExecuteStatement->CreateTable", "query.Processor.ExecuteStatement->Delete",
+   "query.Processor.ExecuteStatement->DropColumns", "query.Processor.ExecuteStatement->Insert",
+   "query.Processor.ExecuteStatement->RenameColumn", "query.Processor.ExecuteStatement->Replace",
+   "query.Processor.ExecuteStatement->SetTableAttribute", "query.Processor.ExecuteStatement->Update",
+   "query.Processor.ReleaseResources->ReleaseResources",
+   "query.Processor.ReleaseResourcesWithErrors->ReleaseResourcesWithErrors",
+   "query.Transaction.Commit->ReleaseResources", "query.Transaction.Rollback->ReleaseResources",
+   "query.loadObjectFromFile->cacheViewFromFile"]
+
+/-- the statement kinds that reach a site other than a load: the data-changing statements and COMMIT / ROLLBACK -/
+def cacheStmtKinds : List (String × String) :=
+  [("parser.InsertQuery", "Insert"), ("parser.UpdateQuery", "Update"), ("parser.ReplaceQuery", "Replace"),
+   ("parser.DeleteQuery", "Delete"), ("parser.CreateTable", "CreateTable"), ("parser.AddColumns", "AddColumns"),
+   ("parser.DropColumns", "DropColumns"), ("parser.RenameColumn", "RenameColumn"),
+   ("parser.SetTableAttribute", "SetTableAttribute"), ("parser.TransactionControl", "Commit,Rollback")]
+
+/-- the statement kinds Model/Session.lean has as `Op` (SELECT, the data-changing statements, COMMIT / ROLLBACK, temporary tables) -/
+def dataStmtCases : List String :=
+  ["parser.SelectQuery", "parser.InsertQuery", "parser.UpdateQuery", "parser.ReplaceQuery", "parser.DeleteQuery",
+   "parser.CreateTable", "parser.AddColumns", "parser.DropColumns", "parser.RenameColumn", "parser.SetTableAttribute",
+   "parser.TransactionControl", "parser.ViewDeclaration", "parser.DisposeView"]
+
+/-- statements that run OTHER statements (each of which is dispatched again) -/
+def containerStmtCases : List String :=
+  ["parser.If", "parser.Case", "parser.While", "parser.WhileInCursor", "parser.Source", "parser.Execute",
+   "parser.ExecuteStatement", "default"]
+
 end Csvq.Ref
